@@ -33,6 +33,7 @@ static void load_data(PhaseSpace& ps, unsigned nx, unsigned nb, uint64_t dseed, 
     Rng r(Rng::mix(dseed, (uint64_t)i));
     float* d = ps.getData();
     int kind = (int)r.range(0, 3);
+    long zero_bunch = (nb > 1 && r.chance(0.15)) ? r.range(0, (long)nb - 1) : -1;   // sometimes one bunch holds no charge at all
     for (unsigned b = 0; b < nb; b++) {
         double cx = r.uniform(0.2, 0.8) * nx, cy = r.uniform(0.3, 0.7) * nx, sx = r.uniform(0.05, 0.3) * nx, sy = r.uniform(0.1, 0.3) * nx, amp = r.uniform(0.1, 2);
         for (unsigned x = 0; x < nx; x++) for (unsigned y = 0; y < nx; y++) {
@@ -41,6 +42,7 @@ static void load_data(PhaseSpace& ps, unsigned nx, unsigned nb, uint64_t dseed, 
             else if (kind == 1) v = (std::fabs(x - cx) < sx && std::fabs(y - cy) < sy) ? amp : 0;            // compact support
             else if (kind == 2) v = amp * r.unit();                                                            // noise everywhere
             else v = (x == (unsigned)cx) ? amp : 0;                                                            // a single column
+            if ((long)b == zero_bunch) v = 0;
             d[(b * nx + x) * nx + y] = (float)v;
         }
     }
@@ -97,7 +99,7 @@ struct C18 : Scenario {
             if (u < 0.25) { ops += ",L" + std::to_string(r.chance(0.3) ? r.range(0, nextload - 1) : nextload++); }
             else if (u < 0.55) ops += full ? ",W" : ",C0";
             else if (u < 0.7) ops += ",P";
-            else ops += r.chance(0.5) ? ",C0" : ",C1";
+            else ops += r.pick(std::vector<std::string>{",C0", ",C1", ",C2", ",C3", ",C3", ",C2"});
         }
         p.set("ops", ops);
         return p;
@@ -133,7 +135,10 @@ struct C18 : Scenario {
             if (op[0] == 'W' && !f.full) continue;
             if (!prevop.empty() && prevop[0] != op[0]) mixed = true;
             // ---- operation on the object with history
-            float fc = op == "C1" ? 1e11f : 0.0f;
+            // cut-off frequencies: none, far above the frequency axis, and two inside it (so that the shielding factor
+            // 1-exp(-(f/fc)^2) saturates to 1 at different bins)
+            const float fmax_hz = 2.99792458e8f * (1.0f / ps->getDelta(0));
+            float fc = op == "C1" ? 1e11f : op == "C2" ? 0.25f * fmax_hz : op == "C3" ? 0.03f * fmax_hz : 0.0f;
             if (op[0] == 'W') field->wakePotential();
             else if (op[0] == 'P') field->padBunchProfiles();
             else field->updateCSR(fc);
